@@ -13,6 +13,8 @@ MANIFEST_ENTRY = {
     "note": "Bound: <=2 share numbers per request (16 state combinations x read-only x space-API-present), <=1 other upload in progress with symbolic reservation. fileutil.get_available_space is the assumed source of the free-space number (statvfs). BucketWriter construction is replaced by a stub that records (incoming path, size); its own contract is C22. Release on close/abort is C22's BucketWriterAbort/Close + bucket_writer_closed here.",
     "technique": "contract-based deductive verification (pyvc VCs + z3); request shape bounded",
 }
+MANIFEST_ENTRY["text"] += " Bounded end-to-end stand-in (run-time contract, never counted as proved): contracts/grid_http.py drives the real StorageServer through seeded histories (allocate, chunked/overlapping/conflicting/overrunning writes, abort, 31-minute timeout, reads, leases, read-test-write with failing tests, truncation, deletion, wrong write enabler) and compares it after every operation with a plain byte-array model: visible shares, bytes, space reserved for uploads in progress, mutable slots."
+MANIFEST_ENTRY["technique"] = MANIFEST_ENTRY.get("technique", "contract-based deductive verification: pre/postconditions on the real functions, VCs generated from the AST, discharged by z3/cvc5") + "; plus a bounded run-time contract: the real StorageServer against a byte-array model over seeded histories (stand-in, labelled bounded)"
 EXPLANATION = "allocate_buckets executed symbolically for all integer space values; request shape bounded to two share numbers."
 TRUSTED = ["fileutil.get_available_space returns the disk's free space minus reserved_space (assumed)"]
 ASSUMPTIONS = ["termination not proved"]
@@ -227,6 +229,11 @@ class AvailableSpace(Spec):
 
     def canary(self, I, a, out):
         return [("canary", Z(out.value) == 1)]
+
+
+def extra_checks(rep, tier):
+    from contracts import grid_http
+    grid_http.grid_check(rep, tier, "C28")
 
 
 def contracts(tier):
